@@ -25,7 +25,7 @@ P = {
  "C07": ("exact-arithmetic theorems: Chan/streaming covariance = two-pass, R2 sufficient statistics = definition (all modes, adjusted, guards), weighted MSE incl. clamp denominator, trapezoid AUC with stable sort, PSNR/NE/perplexity sufficient statistics (log/exp symbolic), throughput; Wasserstein partial",
          "PARTIAL w.r.t. floating-point rounding: theorems are over Q; inputs are well-conditioned and exactly representable; Frechet distance eigenvalue routine uninterpreted; FrechetAudioDistance has no value model",
          "Coq proof over Qc (ring/field) + float64 correspondence (tolerance 2^-40; 2^-17 where the code computes in float32)"),
- "C08": ("hit rate / reciprocal rank rank rule, retrieval precision/recall functionals for every k/limit_k_to_size, top-k retention, CTR, weighted calibration, collisions, frequency; row DP = Levenshtein recurrence = textbook distance (uniqueness), WER/WIP/WIL, BLEU clipped counts / closest reference / brevity penalty; class forms on all data seen; refutations with witnesses for the retrieval class defects",
+ "C08": ("hit rate / reciprocal rank rank rule, retrieval precision/recall functionals for every k/limit_k_to_size, top-k retention, CTR, weighted calibration, collisions, frequency; row DP = Levenshtein recurrence = textbook distance (uniqueness), WER/WIP/WIL, BLEU clipped counts / closest reference / brevity penalty; class forms on all data seen (retrieval classes: positive theorems for the repaired code, refutations with witnesses kept for the pre-fix variant; the harness detects which variant the tree implements)",
          "retrieval statements under the property's proviso 'scores without ties'; BLEU exp/log symbolic; str.split glue exercised by mixed-whitespace rendering",
          "Coq proof + exhaustive edit-distance domain + random correspondence"),
  "C09": ("value-level bisimulation: load(state_dict) / clone reproduce every continuation when all attributes are registered; registry table regenerated from the AST proves attributes written outside __init__ are registered (windowed cursor refuted with witness); base-class skeletons prove state_dict/load/_add_state copy; restore-vs-original executed on every class at random checkpoints with continuations that wrap windows",
@@ -40,7 +40,7 @@ P = {
  "C12": ("order invariance (permutation of updates with commutative abstraction) and batching invariance (additive beta) proved generically; per-family corollaries; the same sample multiset re-batched / re-ordered on the real classes",
          "per-sample-order metrics and AUC(reorder=False) exempt as documented; retrieval under tie-free scores",
          "Coq proof (corollaries of the merge-tree theorem) + differential re-batching / re-ordering"),
- "C13": ("ring buffer refines 'last N updates' queue for the four update-granular classes (windowed and lifetime values), sample-granular buffer holds the last N samples (three insertion cases); AUROC window compute refuted for zero scores / one-sample windows (known findings); step-by-step state correspondence and windowed-vs-non-windowed direct stream",
+ "C13": ("ring buffer refines 'last N updates' queue for the four update-granular classes (windowed and lifetime values), sample-granular buffer holds the last N samples (three insertion cases) and compute() = AUROC spec of exactly those samples for all scores incl. 0 and all window sizes (model of the repaired code; the pre-fix variant keeps its refutations); window_merge_pools for merges; step-by-step state correspondence and windowed-vs-non-windowed direct stream in which the harness overwrites the tensors it passed",
          "NE log terms symbolic; permutation invariance of the AUROC kernel imported from C05",
          "Coq proof (refinement invariant by induction over updates) + step-by-step correspondence"),
  "C14": ("commit-order soundness (a raising update has written nothing) over skeletons regenerated from the AST with a discharge list; failure atomicity and survival executed by fault injection in sandboxed workers at every position of valid histories; functional arguments bit-identical",
